@@ -282,7 +282,8 @@ func TestC06Dispatch(t *testing.T) {
 				if rapid.Bool().Draw(rt, "anyop") {
 					code = rapid.Uint32().Draw(rt, "op")
 				}
-				if _, impl := pins.Ops[code]; impl {
+				if _, impl := pins.Ops[code]; impl || code>>24 == 0x8C {
+					// 0x8Cxxxxxx is reserved for the run-time registration test of this package
 					code = 0x2C
 				}
 				labels = append(labels, "arbitrary-code")
